@@ -603,7 +603,33 @@ def explore_abort() -> Dict[str, Any]:
                 res["violations"].append(dict(signature=f"C07|{clause}|{engine}|existing-record", clause=clause,
                                               what=f"{engine}: {clause}: {detail}; OUT, BACK, NEXT, BAD [aborts at the {fault_pos} position], UNDO",
                                               size=1, replay=dict(kind="abort", case=["history-existing-record"], engine=engine)))
-    res["samples"].append(dict(family="ABORT", cases=len(abort_cases()) + 5))
+    # ---- one event, two regions: the first region's transition commits and lands in a state with an eventless (always)
+    #      transition, the second region's transition aborts.  The committed part of the step still has to settle: the
+    #      machine must not rest in a state whose always-transition is enabled until some later event happens along
+    for engine in ENGINES:
+        cfg = {"id": "m", "type": "parallel", "states": {
+            "a": {"initial": "a1", "states": {"a1": {"on": {"E": "a2"}}, "a2": {"always": {"target": "a3", "actions": ["mk:settled"]}}, "a3": {}}},
+            "b": {"initial": "b1", "states": {"b1": {"on": {"E": {"target": "b2", "actions": ["nope"]}}}, "b2": {}}}},
+            "on": {"NOP": {"actions": ["mk:nop"]}}}
+        h = Harness(cfg, with_plugin=True, threads=True, budget=3000, missing_actions=["nope"], extra_markers=["mk:settled"])
+        d = h.driver(engine)
+        try:
+            res["executions"] += 1
+            res["evaluations"] += 1
+            res["distinct_count"] += 1
+            d.start()
+            d.send("E")
+            d.settle()
+            conf = d.observe()[0]
+            if "m.a.a2" in conf:
+                res["violations"].append(dict(
+                    signature=f"C07|abort-in-one-region-leaves-the-committed-region-unsettled|{engine}", clause="macrostep-not-settled-after-abort",
+                    what=f"{engine}: region a committed a1 -> a2 (a2 has an enabled always -> a3), region b's transition of the same event aborted: "
+                         f"the machine rests in {conf}; the always-transition only runs when the next event arrives",
+                    size=1, replay=dict(kind="abort", case=["abort-unsettled"], engine=engine)))
+        finally:
+            d.close()
+    res["samples"].append(dict(family="ABORT", cases=len(abort_cases()) + 7))
     return res
 
 
